@@ -1299,6 +1299,11 @@ func (s *LoadingStore[K, V]) Get(ctx context.Context, key K) (V, error) {
 				if err != nil && !errors.As(err, &notFound) {
 					return Loaded[V]{}, err
 				}
+				if ok && expire != 0 && expire <= s.timerwheel.clock.NowNano() {
+					// past its deadline: drop it and load a fresh value
+					_ = s.secondaryCache.Delete(key)
+					ok = false
+				}
 				if ok {
 					result = s.setShardWithoutLock(shard, h, key, vs, cost, expire, true)
 					entryCost = cost
